@@ -251,14 +251,24 @@ PROPS["C15"] = {
         K("get_extension two-byte form (8 B)", "c15_get_extension_twobyte_8", "quick", "bounded", ["RtpHeader::get_extension"],
           "equals a reference walk written from RFC 8285 4.3", bound="8 symbolic bytes", module=RM, timeout=600),
         K("set_extension then get_extension (4 B block)", "c15_set_get_extension_4", "thorough", "bounded", ["RtpHeader::set_extension", "RtpHeader::get_extension"],
-          "get(id) == Some(d), every other id unchanged, block 32-bit aligned",
+          "get(id) == Some(d), block 32-bit aligned",
           bound="received block of 4 symbolic bytes (well-formed by assumption), 2-byte value", module=RM, timeout=1500),
+        K("SDES item length octet (2 B text)", "c15_sdes_item_length_2", "quick", "bounded", ["build_sdes_body"], "length octet, terminator, padding", bound="text 2 bytes (item list ends on a 32-bit boundary)", module=RM, timeout=600),
+        K("SDES item length octet (4 B text)", "c15_sdes_item_length_4", "quick", "bounded", ["build_sdes_body"], "same", bound="text 4 bytes", module=RM, timeout=600),
+        K("SDES item length octet (5 B text)", "c15_sdes_item_length_5", "quick", "bounded", ["build_sdes_body"], "same", bound="text 5 bytes", module=RM, timeout=600),
+        K("SDES two chunks framing (1 B text)", "c15_sdes_two_chunks_1", "quick", "bounded", ["build_sdes_body"],
+          "first chunk zero-terminated and padded, second chunk starts at the next 32-bit boundary", bound="2 chunks, first text 1 byte", module=RM, timeout=600),
+        K("SDES two chunks framing (2 B text)", "c15_sdes_two_chunks_2", "quick", "bounded", ["build_sdes_body"], "same", bound="first text 2 bytes", module=RM, timeout=600),
+        K("SDES two chunks framing (3 B text)", "c15_sdes_two_chunks_3", "quick", "bounded", ["build_sdes_body"], "same", bound="first text 3 bytes", module=RM, timeout=600),
+        K("SDES two chunks framing (4 B text)", "c15_sdes_two_chunks_4", "quick", "bounded", ["build_sdes_body"], "same", bound="first text 4 bytes", module=RM, timeout=600),
         K("SDES item length octet (3 B text)", "c15_sdes_item_length_3", "quick", "bounded", ["build_sdes_body"],
           "length octet == number of text bytes written; chunk zero-terminated and padded to 32 bits", bound="one chunk, one item, text 3 bytes", module=RM, timeout=600),
         K("SDES item length octet (255 B text)", "c15_sdes_item_length_255", "quick", "bounded", ["build_sdes_body"], "same", bound="text 255 bytes", module=RM, timeout=600),
         K("SDES item length octet (300 B text)", "c15_sdes_item_length_300", "quick", "bounded", ["build_sdes_body"],
           "text longer than 255 bytes is truncated to what the length octet can carry (never emits bytes its own parser mis-frames)", bound="text 300 bytes", module=RM, timeout=600),
         K("BYE reason length octet (300 B text)", "c15_bye_reason_length_300", "quick", "bounded", ["build_goodbye_body"], "same law for the BYE reason", bound="reason 300 bytes", module=RM, timeout=600),
+        K("set_extension keeps other ids (4 B block)", "c15_set_keeps_other_extension_4", "thorough", "bounded", ["RtpHeader::set_extension", "RtpHeader::get_extension"],
+          "every other extension id reads back unchanged after stamping one", bound="received block of 4 symbolic bytes (well-formed by assumption), 1-byte value", module=RM, timeout=1500),
         K("canary: report block inverse without clamping", "canary_report_block_unclamped", "quick", "canary", ["build_report_block"], "false claim, must FAIL", expect="fail", module=RM),
     ],
 }
@@ -289,8 +299,13 @@ PROPS["C16"] = {
           "no MI/FP: length == len-20, LIFETIME layout", bound="1 LIFETIME attribute", module=SM, timeout=600),
         K("decode(encode) XOR-MAPPED v4", "c16_decode_of_encode_xor_mapped_v4", "thorough", "bounded", ["decode_stun_message", "encode_stun_message", "parse_xor_address"],
           "class, method, transaction id and address recovered", bound="binding success response, one v4 address", module=SM, timeout=1500),
+        K("decode: trailing zero-length attribute is visited (24 B)", "c16_decode_24_trailing_zero_length_attr", "quick", "bounded", ["decode_stun_message"],
+          "for every 24-byte message whose single attribute has length 0: use_candidate == (type == 0x0025); transaction id recovered",
+          bound="message = 20-byte header + one 4-byte attribute header", module=SM, timeout=900),
+        K("decode(encode) Binding request + USE-CANDIDATE", "c16_decode_of_encode_use_candidate", "quick", "bounded", ["decode_stun_message", "encode_stun_message"],
+          "the flag attribute survives the round trip", bound="one zero-length attribute, no MI/FP", module=SM, timeout=900),
         K("priority_for contract (RFC 8445 5.1.2.1)", "c16_priority_for_contract", "quick", "proof", ["IceCandidate::priority_for"],
-          "in-place kani::ensures: 2^24*type_pref + 2^8*65535 + (256-component), <= 0x7EFFFFFF, for every type and component", module=IM),
+          "in-place kani::requires(component >= 1) + kani::ensures: 2^24*type_pref + 2^8*65535 + (256-min(component,256)), <= 0x7EFFFFFF, for every type and valid component id", module=IM),
         K("priority ordering", "c16_priority_ordering", "quick", "proof", ["IceCandidate::priority_for"], "host > prflx > srflx > relay > 0; lower component id wins", module=IM),
         K("priority_for_tcp (RFC 6544 4.1)", "c16_priority_for_tcp_spec", "quick", "proof", ["IceCandidate::priority_for_tcp"],
           "same formula with local preference passive > active > so; never above the UDP priority", module=IM),
@@ -338,6 +353,7 @@ PROPS["C07"] = {
         + _c07(["c07_parse_remb_15", "c07_parse_remb_24"], RM, "parse_remb_body", "parse_remb_body")
         + _c07(["c07_parse_twcc_15", "c07_parse_twcc_20"], RM, "parse_twcc_body", "parse_twcc_body")
         + _c07(["c07_parse_fir_7", "c07_parse_fir_24"], RM, "parse_fir_body", "parse_fir_body")
+        + _c07(["c07_parse_rtcp_packets_4", "c07_parse_rtcp_packets_8", "c07_parse_rtcp_packets_12"], RM, "parse_rtcp_packets", "parse_rtcp_packets (compound walker)")
         + _c07(["c07_stun_decode_0", "c07_stun_decode_19", "c07_stun_decode_20", "c07_stun_decode_24"], SM, "decode_stun_message", "decode_stun_message")
         + [
             K("parse_xor_address total (<= 20 B)", "c07_parse_xor_address_total", "quick", "bounded", ["parse_xor_address"],
